@@ -21,13 +21,106 @@ import (
 	"sort"
 	"strconv"
 	"strings"
+
+	"golang.org/x/tools/go/ssa"
 )
 
 type docRec struct {
 	name   string
-	format string // json | toml | yaml
+	format string // json | toml | yaml | xml
 	t      types.Type
 	root   *value
+	i      *interpreter
+	// custom: for a value of a type that decodes itself through a callback (see runCustom): the
+	// inner value its method asked the decoder for, keyed by the outer value's identity
+	custom map[*value]customInner
+	cells  []*value // keeps the outer cells of runCustom alive and findable
+}
+
+type customInner struct {
+	t types.Type
+	v *value
+}
+
+// hostFunc is a callable implemented by the engine (used as the `unmarshal func(any) error`
+// argument of yaml.v2-style UnmarshalYAML methods).
+type hostFunc struct {
+	f func(args []value) value
+}
+
+// customMethod finds a self-decoding method of *t that the engine can drive:
+//   - UnmarshalYAML(unmarshal func(any) error) error  -> kind "yaml-func"
+//   - UnmarshalTOML(data any) error                    -> kind "toml-any"
+func customMethod(i *interpreter, t types.Type) (*ssa.Function, string) {
+	if _, ok := types.Unalias(t).(*types.Named); !ok {
+		return nil, ""
+	}
+	pt := types.NewPointer(t)
+	ms := i.prog.MethodSets.MethodSet(pt)
+	for k := 0; k < ms.Len(); k++ {
+		sel := ms.At(k)
+		fn, _ := sel.Obj().(*types.Func)
+		if fn == nil {
+			continue
+		}
+		sig := fn.Type().(*types.Signature)
+		if sig.Params().Len() != 1 || sig.Results().Len() != 1 {
+			continue
+		}
+		switch fn.Name() {
+		case "UnmarshalYAML":
+			if _, isFunc := sig.Params().At(0).Type().Underlying().(*types.Signature); isFunc {
+				return i.prog.MethodValue(sel), "yaml-func"
+			}
+		case "UnmarshalTOML":
+			if it, isIface := sig.Params().At(0).Type().Underlying().(*types.Interface); isIface && it.NumMethods() == 0 {
+				return i.prog.MethodValue(sel), "toml-any"
+			}
+		}
+	}
+	return nil, ""
+}
+
+// runCustom builds a value of a self-decoding type by running its real Unmarshal method on an
+// arbitrary inner value. A decode error of the method prunes the path (the real decoder would
+// reject the whole document: nothing of the extractor's own code runs on it).
+func runCustom(fn *ssa.Function, kind string, t types.Type, path string, doc *docRec, depth int) value {
+	cell := new(value)
+	*cell = zero(t)
+	var res value
+	switch kind {
+	case "yaml-func":
+		cb := &hostFunc{f: func(args []value) value {
+			it, _ := args[0].(iface)
+			pt, ok := it.t.(*types.Pointer)
+			target, ok2 := it.v.(*value)
+			if !ok || !ok2 || target == nil {
+				panic(pathAbort{"unsupported", "UnmarshalYAML callback with a non-pointer target"})
+			}
+			*target = arbitrary(pt.Elem(), path, doc, depth)
+			if doc.custom == nil {
+				doc.custom = map[*value]customInner{}
+			}
+			doc.custom[cell] = customInner{t: pt.Elem(), v: target}
+			return iface{}
+		}}
+		res = call(doc.i, nil, 0, fn, []value{cell, cb})
+	case "toml-any":
+		inner := new(value)
+		lc := &lazycell{t: anyType, path: path, doc: doc, depth: depth}
+		*inner = lc.force()
+		if doc.custom == nil {
+			doc.custom = map[*value]customInner{}
+		}
+		doc.custom[cell] = customInner{t: anyType, v: inner}
+		res = call(doc.i, nil, 0, fn, []value{cell, *inner})
+	}
+	if e, ok := res.(iface); ok && e.t != nil {
+		panic(pathAbort{"pruned", "a self-decoding type rejected the document"})
+	}
+	ex.noteStub("arbitrary: " + t.String() + " decoded by its own " + fn.Name() + " on an arbitrary inner value")
+	doc.cells = append(doc.cells, cell)
+	return *cell
 }
 
 type lazycell struct {
@@ -132,6 +225,9 @@ func hasCustomUnmarshal(t types.Type) string {
 // arbitrary returns an arbitrary (lazily built) value of type t.
 func arbitrary(t types.Type, path string, doc *docRec, depth int) value {
 	if m := hasCustomUnmarshal(t); m != "" {
+		if fn, kind := customMethod(doc.i, t); fn != nil {
+			return runCustom(fn, kind, t, path, doc, depth)
+		}
 		// a type that decodes itself: left at its zero value (stated in the evidence as a stub)
 		ex.noteStub("arbitrary: " + t.String() + " has " + m + ", left zero")
 		return zero(t)
@@ -357,6 +453,7 @@ type renderer struct {
 	m      map[string]uint64
 	memo   map[int]uint64
 	format string
+	doc    *docRec
 }
 
 func (r *renderer) scalar(v value) (uint64, bool) {
@@ -408,6 +505,24 @@ func quote(s string) string {
 	}
 	sb.WriteByte('"')
 	return sb.String()
+}
+
+// customOf finds the inner value recorded by runCustom for an outer value (matched by the identity
+// of the outer structure's backing array, which in-place field stores preserve).
+func (r *renderer) customOf(v value) (customInner, bool) {
+	if r.doc == nil {
+		return customInner{}, false
+	}
+	s, ok := v.(structure)
+	if !ok || len(s) == 0 {
+		return customInner{}, false
+	}
+	for cell, in := range r.doc.custom {
+		if cs, ok := (*cell).(structure); ok && len(cs) > 0 && &cs[0] == &s[0] {
+			return in, true
+		}
+	}
+	return customInner{}, false
 }
 
 type kv struct{ k, v string }
@@ -468,6 +583,9 @@ func (r *renderer) value(t types.Type, v value) (string, bool) {
 		v = lc.val
 	}
 	if hasCustomUnmarshal(t) != "" {
+		if in, ok := r.customOf(v); ok {
+			return r.value(in.t, *in.v)
+		}
 		// a type that decodes itself was left at its zero value: render the document that most
 		// plausibly decodes to it
 		switch t.Underlying().(type) {
@@ -599,7 +717,7 @@ func (r *renderer) value(t types.Type, v value) (string, bool) {
 
 // renderDoc renders the materialised part of doc under model m.
 func renderDoc(d *docRec, m map[string]uint64) string {
-	r := &renderer{m: m, memo: map[int]uint64{}, format: d.format}
+	r := &renderer{m: m, memo: map[int]uint64{}, format: d.format, doc: d}
 	root := *d.root
 	if d.format == "toml" {
 		// top level: key = value lines
